@@ -36,8 +36,8 @@ class Oracle:
             return {'crash': rc}
         return json.loads(line)
 
-    def dump(self, wgsl):
-        return self.req(cmd='dump', wgsl=wgsl)
+    def dump(self, wgsl, caps=None):
+        return self.req(cmd='dump', wgsl=wgsl) if caps is None else self.req(cmd='dump', wgsl=wgsl, caps=caps)
 
     def gen(self, wgsl, options=None, include=None):
         return self.req(cmd='gen', wgsl=wgsl, options=options or {}, include=include)
